@@ -81,6 +81,8 @@ FIXED = [
     ('7fe9283', ['C01', 'C06'], "remove_pass / remove_asserts / remove_debug removed every statement in front of a string statement at the start of a body, which then became the docstring (\"def f(): pass; 'a'\" -> \"def f():'a'\", __doc__ 'a' instead of None)",
      [('C01', 'string_statement_becomes_docstring', {'source': "def f():\n    pass\n    'a'\n    pass\nclass K:\n    pass\n    'b'\nprint(repr(f.__doc__), repr(K.__doc__))\n", 'opts': o(OFF, remove_pass=True)}),
       ('C06', 'string_statement_becomes_docstring', {'source': "def alpha_value(*, alpha_value: 'a'=alpha_value):\n    pass\n    'a'\n    pass\n", 'opts': D})]),
+    ('57b20f4', ['C09'], "a 'global eval' statement (nothing assigns eval) made eval(...) resolve to a module binding instead of the builtin: the module was not frozen, locals were renamed and eval('local_name') failed",
+     [('C09', 'global_declaration_of_trigger', {'source': "def g():\n    global eval\ndef f(some_local):\n    other_local = some_local\n    return eval('other_local')\nprint(f(1))\n", 'opts': D, 'trigger': 'eval', 'pl': [], 'pg': []})]),
 ]
 
 
